@@ -21,7 +21,9 @@ RULE = ("inputs on an exact-arithmetic time lattice together with a transformati
         "non-identity transformation; distinct by SHA-1")
 ASSUMPTIONS = ["equality to 1e-12 (shifts are exact on the lattice; only summation order may change)",
                "under permutations only precision/recall/F are asserted (the overlap ratio depends on which maximum matching is found)",
-               "melody is deliberately not shifted: its time base is anchored at 0 by to_cent_voicing"]
+               "melody is deliberately not shifted: its time base is anchored at 0 by to_cent_voicing",
+               "alignment.percentage_correct_segments with duration= is not shifted either: the documentation anchors its first segment at time 0 "
+               "(only the MIREX variant, without duration, is documented as independent of the silent lead-in)"]
 TOL = 1e-12
 
 
@@ -46,16 +48,22 @@ SHIFTS = [0.0, 0.25, 1.0, 0.0625, 3.5, 10.0, 100.0, 7.015625]
 @st.composite
 def events_case(draw):
     ref, est = draw(g.event_pair(q=64, lo=5.0, hi=20.0, max_n=10))
-    return {"ref": ref, "est": est, "shift": draw(st.sampled_from(SHIFTS))}
+    # keywords: any subset of the documented ones at non-default values (the trim time stays at its default here: beats are >= 5 s)
+    bkw = R.subset(draw, {k: v for k, v in R.BEAT_KW.items() if k != "min_beat_time"}) if draw(st.booleans()) else {}
+    okw = {"window": draw(st.sampled_from([0.025, 0.0625, 0.1, 0.5]))} if draw(st.booleans()) else {}
+    return {"ref": ref, "est": est, "shift": draw(st.sampled_from(SHIFTS)), "beat_kw": bkw, "onset_kw": okw}
 
 
 def pred_events(case, ctx):
     r, e, s = _a(case["ref"]), _a(case["est"]), case["shift"]
-    _same("beat.evaluate", ctx.call(beat.evaluate, r, e), ctx.call(beat.evaluate, r + s, e + s), case)
-    _same("onset.evaluate", ctx.call(onset.evaluate, r, e), ctx.call(onset.evaluate, r + s, e + s), case)
+    bkw, okw = case["beat_kw"], case["onset_kw"]
+    _same("beat.evaluate(%s)" % ", ".join(sorted(bkw)), ctx.call(beat.evaluate, r, e, **bkw), ctx.call(beat.evaluate, r + s, e + s, **bkw), case)
+    _same("onset.evaluate(%s)" % ", ".join(sorted(okw)), ctx.call(onset.evaluate, r, e, **okw), ctx.call(onset.evaluate, r + s, e + s, **okw), case)
     # onsets may also move towards the origin
     m = min(case["ref"] + case["est"] + [5.0])
-    _same("onset.evaluate(shift to origin)", ctx.call(onset.evaluate, r, e), ctx.call(onset.evaluate, r - m, e - m), case)
+    _same("onset.evaluate(shift to origin)", ctx.call(onset.evaluate, r, e, **okw), ctx.call(onset.evaluate, r - m, e - m, **okw), case)
+    if bkw or okw:
+        ctx.event("non_default_keywords")
     return len(case["ref"]) + len(case["est"]) >= 3 and s != 0
 
 
@@ -65,10 +73,7 @@ def beat_kw_case(draw):
     m = draw(st.sampled_from([0.0, 1.0, 2.0, 2.5, 8.0, 5.0]))
     ref, est = draw(g.event_pair(q=64, lo=m, hi=m + 12.0, max_n=10))
     kw = {"min_beat_time": m}
-    if draw(st.booleans()):
-        kw["f_measure_threshold"] = draw(st.sampled_from([0.07, 0.05, 0.125]))
-    if draw(st.booleans()):
-        kw["cemgil_sigma"] = draw(st.sampled_from([0.04, 0.08]))
+    kw.update(R.subset(draw, {k: v for k, v in R.BEAT_KW.items() if k != "min_beat_time"}))
     return {"ref": ref, "est": est, "shift": draw(st.sampled_from(SHIFTS)), "kw": kw}
 
 
@@ -152,6 +157,7 @@ def pattern_case(draw):
     c = draw(gt.pattern_case())
     c["shift"] = draw(st.sampled_from([0.0, 1.0, 0.5, 16.0, 100.0]))
     c["perm"] = draw(st.permutations(list(range(len(c["ref"])))))
+    c["extra_kw"] = R.subset(draw, {"thres": st.sampled_from([0.5, 0.6, 0.25]), "tol": st.sampled_from([0.01, 0.1])})
     return c
 
 
@@ -160,6 +166,9 @@ def pred_pattern(case, ctx):
     a, b = R.tuples(Rr), R.tuples(Ee)
     sh = lambda P: [[[(nt[0] + s, nt[1]) for nt in o] for o in occ] for occ in P]
     kw = {"n": case["n"]}
+    if case.get("extra_kw"):
+        kw.update(case["extra_kw"])
+        ctx.event("pattern_keywords:" + "+".join(sorted(case["extra_kw"])))
     s0 = ctx.call(pattern.evaluate, a, b, **kw)
     _same("pattern.evaluate (onset shift)", s0, ctx.call(pattern.evaluate, sh(a), sh(b), **kw), case)
     perm = list(case["perm"])
@@ -207,6 +216,7 @@ def _bijection(labels, seed, tag):
 def labels_case(draw):
     c = draw(gs.segmentation_pair())
     c["seed"] = draw(st.integers(0, 10 ** 6))
+    c["marginal"] = draw(st.booleans())
     return c
 
 
@@ -216,7 +226,12 @@ def pred_segment_labels(case, ctx):
         return False
     al2, bl2 = _bijection(al, case["seed"], "P"), _bijection(bl, case["seed"] + 1, "Q")
     for fn in (segment.pairwise, segment.rand_index, segment.ari, segment.mutual_information, segment.nce, segment.vmeasure):
-        _same("segment.%s (label bijection)" % fn.__name__, ctx.call(fn, a, al, b, bl, frame_size=fs), ctx.call(fn, a, al2, b, bl2, frame_size=fs), case)
+        kw = {"frame_size": fs}
+        if fn in (segment.pairwise, segment.nce, segment.vmeasure):
+            kw["beta"] = case["beta"]
+        if fn is segment.nce:
+            kw["marginal"] = case["marginal"]
+        _same("segment.%s (label bijection)" % fn.__name__, ctx.call(fn, a, al, b, bl, **kw), ctx.call(fn, a, al2, b, bl2, **kw), case)
     return len(al) + len(bl) >= 3
 
 
@@ -225,7 +240,8 @@ def hier_labels_case(draw):
     T = draw(st.integers(4, 32)) / 4
     ri, rl = draw(gs.hierarchy(T))
     ei, el = draw(gs.hierarchy(T))
-    return {"ref": {"iv": ri, "lab": rl}, "est": {"iv": ei, "lab": el}, "frame_size": draw(st.sampled_from([0.25, 0.5, 1.0])), "seed": draw(st.integers(0, 10 ** 6))}
+    return {"ref": {"iv": ri, "lab": rl}, "est": {"iv": ei, "lab": el}, "frame_size": draw(st.sampled_from([0.25, 0.5, 1.0])), "seed": draw(st.integers(0, 10 ** 6)),
+            "kw": R.subset(draw, {"beta": st.sampled_from([0.5, 2.0]), "window": st.sampled_from([1.0, 2.0, 4.0])})}
 
 
 def pred_hier_labels(case, ctx):
@@ -240,8 +256,10 @@ def pred_hier_labels(case, ctx):
     rl2 = [[mr[x.lower()].upper() if i % 2 else mr[x.lower()] for i, x in enumerate(l)] for l in rl]
     el2 = [[me[x.lower()] for x in l] for l in el]
     fs = case["frame_size"]
-    _same("hierarchy.lmeasure (label bijection)", ctx.call(hierarchy.lmeasure, ri, rl, ei, el, frame_size=fs), ctx.call(hierarchy.lmeasure, ri, rl2, ei, el2, frame_size=fs), case)
-    _same("hierarchy.evaluate (label bijection)", ctx.call(hierarchy.evaluate, ri, rl, ei, el, frame_size=fs), ctx.call(hierarchy.evaluate, ri, rl2, ei, el2, frame_size=fs), case)
+    kw = dict(case["kw"])
+    lkw = {k: v for k, v in kw.items() if k == "beta"}
+    _same("hierarchy.lmeasure (label bijection)", ctx.call(hierarchy.lmeasure, ri, rl, ei, el, frame_size=fs, **lkw), ctx.call(hierarchy.lmeasure, ri, rl2, ei, el2, frame_size=fs, **lkw), case)
+    _same("hierarchy.evaluate (label bijection)", ctx.call(hierarchy.evaluate, ri, rl, ei, el, frame_size=fs, **kw), ctx.call(hierarchy.evaluate, ri, rl2, ei, el2, frame_size=fs, **kw), case)
     return len(flat_r) + len(flat_e) >= 3
 
 
